@@ -16,12 +16,12 @@ Definition segvis (x : segst) (s : nat) : list (nat * nat) :=
 Definition target (o : fop) : nat :=
   match o with
   | ColWrite s | BsuAppend s | SstWrite s | SstRename s | SfmTmpTrunc s | SfmTmpWrite s _
-  | SfmRename s | SfmTruncate s | SfmWriteInPlace s _ | SegmetaAppend s => s
+  | SfmRename s | SfmTruncate s | SfmWriteInPlace s _ | SegmetaAppend s | PqmrWrite s => s
   end.
 
 Definition sstep (x : segst) (o : fop) : segst :=
   match o with
-  | ColWrite _ | SstWrite _ | SstRename _ | SegmetaAppend _ => x
+  | ColWrite _ | SstWrite _ | SstRename _ | SegmetaAppend _ | PqmrWrite _ => x
   | BsuAppend _ => {| bsu := S (bsu x); sfm := sfm x; tmp := tmp x |}
   | SfmTmpTrunc _ => {| bsu := bsu x; sfm := sfm x; tmp := Invalid |}
   | SfmTmpWrite _ nb => {| bsu := bsu x; sfm := sfm x; tmp := Valid nb |}
@@ -61,6 +61,8 @@ Lemma firstn_repeat {A} (x : A) : forall m k, firstn k (repeat x m) = repeat x (
 Proof. induction m as [|m IH]; intros [|k]; cbn; auto. f_equal. apply IH. Qed.
 
 Lemma fold_repeat_col x s j : fold_left sstep (repeat (ColWrite s) j) x = x.
+Proof. induction j; cbn; auto. Qed.
+Lemma fold_repeat_pq x s j : fold_left sstep (repeat (PqmrWrite s) j) x = x.
 Proof. induction j; cbn; auto. Qed.
 Lemma fold_repeat_sst x s j : fold_left sstep (repeat (SstWrite s) j) x = x.
 Proof. induction j; cbn; auto. Qed.
@@ -180,7 +182,7 @@ Proof.
   - cbn [ops_from expect_from]. rewrite firstn_nil, app_nil_r. reflexivity.
   - destruct HI as (Hlater & Hb & Hb0 & Hbpos). cbn [length] in Hn.
     assert (Hlv : forall t, s < t -> segvis (f t) t = []) by (intros t Ht; rewrite Hlater by exact Ht; reflexivity).
-    destruct st as [m n0|].
+    destruct st as [m n0| |p].
     + (* Flush *)
       cbn [ops_from expect_from].
       pose proof (flush_ops_target s b m n0) as HT.
@@ -246,6 +248,28 @@ Proof.
            rewrite (IH (S s) 0 f1 (k - 4) n HI1) by lia. rewrite Hv1. reflexivity.
         -- replace (k - 4) with 0 by lia. cbn [firstn]. unfold run at 1. cbn [fold_left].
            rewrite Hv1, app_nil_r. reflexivity.
+    + (* PqWrites: appends to the pqmr files change nothing start-up looks at *)
+      cbn [ops_from expect_from].
+      rewrite firstn_app, run_app, repeat_length, firstn_repeat.
+      set (f1 := run f (repeat (PqmrWrite s) (Nat.min k p))).
+      assert (HT : Forall (fun o => target o = s) (repeat (PqmrWrite s) (Nat.min k p))).
+      { apply Forall_forall. intros o Ho. apply repeat_spec in Ho. subst. reflexivity. }
+      assert (Hall : forall t, f1 t = f t).
+      { intros t. destruct (Nat.eq_dec t s) as [->|Ht].
+        - unfold f1. rewrite (run_same _ _ s HT). apply fold_repeat_pq.
+        - unfold f1. apply (run_other _ _ s); auto. }
+      assert (Hv1 : visible f1 n = visible f n).
+      { rewrite !visible_unfold. apply flat_map_seq_ext. intros t _. rewrite Hall. reflexivity. }
+      destruct (Nat.leb_spec p k) as [Hfull|Hpart].
+      * assert (HI1 : Inv f1 s b).
+        { repeat split.
+          - intros t Ht. rewrite Hall. apply Hlater. exact Ht.
+          - rewrite Hall. exact Hb.
+          - intros E. rewrite Hall. apply Hb0. exact E.
+          - intros E. rewrite Hall. apply Hbpos. exact E. }
+        rewrite (IH s b f1 (k - p) n HI1) by lia. rewrite Hv1. reflexivity.
+      * replace (k - p) with 0 by lia. cbn [firstn]. unfold run at 1. cbn [fold_left].
+        rewrite Hv1, app_nil_r. reflexivity.
 Qed.
 
 Lemma Inv_init : Inv fs0 0 0.
@@ -270,12 +294,13 @@ Lemma expect_completed h : forall s b k,
 Proof.
   induction h as [|st h IH]; intros s b k; cbn [expect_from completed_from].
   - exists []. split; auto.
-  - destruct st as [m n|].
+  - destruct st as [m n| |p].
     + destruct (Nat.leb (m + n + 5) k).
       * destruct (IH s (S b) (k - (m + n + 5))) as (e & E & L). exists e. rewrite E. split; auto.
       * destruct (Nat.ltb m k && negb (Nat.eqb b 0)); [exists [(s, b)]|exists []]; split; cbn; auto.
     + destruct b as [|b']; [apply IH|].
       destruct (Nat.leb 4 k); [apply IH|]. exists []. split; auto.
+    + destruct (Nat.leb p k); [apply IH|]. exists []. split; auto.
 Qed.
 
 (* all blocks named are distinct and in ingest order: (s,b) strictly increasing lexicographically *)
@@ -284,25 +309,27 @@ Definition blt (x y : nat * nat) : Prop := fst x < fst y \/ (fst x = fst y /\ sn
 Lemma expect_lower h : forall s b k x, In x (expect_from s b h k) -> (s, b) = x \/ blt (s, b) x.
 Proof.
   induction h as [|st h IH]; intros s b k x; cbn [expect_from]; [intros []|].
-  destruct st as [m n|].
+  destruct st as [m n| |p].
   - destruct (Nat.leb (m + n + 5) k).
     + intros [<-|H]; [left; reflexivity|]. right. apply IH in H as [<-|H]; unfold blt in *; cbn in *; lia.
     + destruct (Nat.ltb m k && negb (Nat.eqb b 0)); [intros [<-|[]]; left; reflexivity|intros []].
   - destruct b as [|b']; [apply IH|].
     destruct (Nat.leb 4 k); [|intros []].
     intros H. right. apply IH in H as [<-|H]; unfold blt in *; cbn in *; lia.
+  - destruct (Nat.leb p k); [apply IH|intros []].
 Qed.
 
 Lemma expect_nodup h : forall s b k, NoDup (expect_from s b h k).
 Proof.
   induction h as [|st h IH]; intros s b k; cbn [expect_from]; [constructor|].
-  destruct st as [m n|].
+  destruct st as [m n| |p].
   - destruct (Nat.leb (m + n + 5) k).
     + constructor; [|apply IH]. intro H. apply expect_lower in H as [H|H].
       * injection H. lia.
       * unfold blt in H. cbn in H. lia.
     + destruct (Nat.ltb m k && negb (Nat.eqb b 0)); repeat constructor. intros [].
   - destruct b as [|b']; [apply IH|]. destruct (Nat.leb 4 k); [apply IH|constructor].
+  - destruct (Nat.leb p k); [apply IH|constructor].
 Qed.
 
 Theorem crash_safe h k :
